@@ -815,6 +815,23 @@ func scenarios1(prop string) []d1x.Scenario {
 	if prop == "C14" {
 		return bgScenarios()
 	}
+	if prop == "C47" {
+		// C47's concurrent half: a reader (file-only snapshot, iterator scan, snapshot read) is
+		// created, used and CLOSED while a flush / compaction installs a new version; afterwards
+		// DB.Close must return no error (a version reference leaked by a racing Close of the reader
+		// shows up as "leaked iterators")
+		mkp := func(a, b string, qb, tb int, w float64) d1x.Scenario {
+			return d1x.Scenario{Name: "pair-" + a + "+" + b, QuickBound: qb, ThoroughBound: tb, Weight: w, Judge: judgePair, MaxSteps: 400000,
+				New: func() vsched.Harness { return &pairH{ops: [2]string{a, b}} }}
+		}
+		return []d1x.Scenario{
+			mkp("efos", "flush", 1, 2, 40),
+			mkp("efos", "batch>flush", 0, 1, 1),
+			mkp("scan", "flush", 0, 1, 1),
+			mkp("snapget", "compact", 0, 1, 1),
+			mkp("efos", "compact", 0, 1, 1),
+		}
+	}
 	if prop == "C37" || prop == "C38" {
 		// the concurrency halves of C37 / C38, run as sub-checks of those properties: the reader-like
 		// operation against the writes it synchronises with, preemption bound 1 already in the quick
